@@ -1443,6 +1443,14 @@ emitdata(struct decl *d, struct init *init)
 			assert(cur->expr->kind == EXPRSTRING);
 			assert(init->expr->kind == EXPRCONST);
 			i = (init->start - cur->start) / cur->expr->type->base->size;
+			if (i >= cur->expr->u.string.size) {
+				/* the element lies beyond the end of the literal, extend it with zeros */
+				size_t n = (cur->end - cur->start) / cur->expr->type->base->size, w = cur->expr->type->base->size;
+
+				cur->expr->u.string.data = xreallocarray(cur->expr->u.string.data, n, w);
+				memset((char *)cur->expr->u.string.data + cur->expr->u.string.size * w, 0, (n - cur->expr->u.string.size) * w);
+				cur->expr->u.string.size = n;
+			}
 			switch (cur->expr->type->base->size) {
 			case 1: ((unsigned char *)cur->expr->u.string.data)[i]  = init->expr->u.constant.u; break;
 			case 2: ((uint_least16_t *)cur->expr->u.string.data)[i] = init->expr->u.constant.u; break;
